@@ -23,7 +23,7 @@ open GlareModel GlareModel.Sem
 
 inductive Obj where
   | table (ncols : Nat) (rows : List Row)
-  | view (ncols : Nat) (q : Query)
+  | view (ncols : Nat) (q : Query) (refs : List String)     -- refs: the names the body scans
   deriving Inhabited
 
 structure Schema where
@@ -58,14 +58,14 @@ inductive Stmt where
   | createSchema (s : String) (ifNotExists : Bool)
   | dropSchema (s : String) (ifExists : Bool)
   | createTable (s n : String) (ifNotExists : Bool) (ncols : Nat)
-  | createView (s n : String) (ncols : Nat) (q : Query)
+  | createView (s n : String) (ncols : Nat) (q : Query) (refs : List String)
   | dropObj (s n : String) (ifExists : Bool)
-  | insert (s n : String) (q : Query)
-  | ctas (s n : String) (ifNotExists : Bool) (ncols : Nat) (q : Query)
+  | insert (s n : String) (q : Query) (refs : List String)
+  | ctas (s n : String) (ifNotExists : Bool) (ncols : Nat) (q : Query) (refs : List String)
   | setVar (v : String) (isBoolLit : Bool) (x : Int)
   | resetVar (v : String)
   | showVar (v : String)
-  | select (q : Query)
+  | select (q : Query) (refs : List String)
   | listObjs
   deriving Inhabited
 
@@ -107,34 +107,54 @@ def tablesOf (s : Sess) : Db :=
   s.schemas.flatMap fun sc => sc.objs.filterMap fun (n, o) =>
     match o with
     | .table w rows => some (qname sc.name n, w, rows)
-    | .view _ _ => none
+    | .view _ _ _ => none
 
-def viewsOf (s : Sess) : List (String × Nat × Query) :=
+def viewsOf (s : Sess) : List (String × Nat × Query × List String) :=
   s.schemas.flatMap fun sc => sc.objs.filterMap fun (n, o) =>
     match o with
-    | .view w q => some (qname sc.name n, w, q)
+    | .view w q refs => some (qname sc.name n, w, q, refs)
     | .table _ _ => none
 
+def isRuntime : Err → Bool
+  | .overflow | .divZero | .card => true
+  | _ => false
+
+/-- The database a statement sees plus the *poisoned* views: views whose body (or a view below
+it) fails at run time; a query that scans one of them fails at run time too. -/
+structure View where
+  db : Db
+  poisoned : List String := []
+
 /-- One pass: every view not yet available whose body evaluates on the current database becomes
-available (a view over a missing object stays unavailable: using it is an error). -/
-def viewPass (views : List (String × Nat × Query)) (db : Db) : Db :=
-  views.foldl (fun db (n, w, q) =>
-    if db.any (·.1 == n) then db else
-    match evalQ db 200 [] q with
-    | .ok rows => db ++ [(n, w, rows)]
-    | .error _ => db) db
+available (a view over a missing object stays unavailable: using it is a bind error). -/
+def viewPass (views : List (String × Nat × Query × List String)) (v : View) : View :=
+  views.foldl (fun v (n, w, q, refs) =>
+    if v.db.any (·.1 == n) || v.poisoned.contains n then v else
+    if refs.any v.poisoned.contains then { v with poisoned := n :: v.poisoned } else
+    match evalQ v.db 200 [] q with
+    | .ok rows => { v with db := v.db ++ [(n, w, rows)] }
+    | .error e => if isRuntime e then { v with poisoned := n :: v.poisoned } else v) v
 
 def iter (f : α → α) : Nat → α → α
   | 0, x => x
   | k + 1, x => iter f k (f x)
 
-def dbOf (s : Sess) : Db :=
+def viewOf (s : Sess) : View :=
   let vs := viewsOf s
-  iter (viewPass vs) vs.length (tablesOf s)
+  iter (viewPass vs) vs.length { db := tablesOf s }
 
-def isRuntime : Err → Bool
-  | .overflow | .divZero | .card => true
-  | _ => false
+def dbOf (s : Sess) : Db := (viewOf s).db
+
+/-- Evaluate a statement's source query on the current state. -/
+def evalOn (s : Sess) (q : Query) (refs : List String) : Except Err (List Row) :=
+  let v := viewOf s
+  if refs.any v.poisoned.contains then .error .overflow else evalQ v.db 200 [] q
+
+/-- Binding (no rows are evaluated): every scanned name resolves to a table or to a view that
+itself binds. A view whose body only fails at run time does bind. -/
+def binds (s : Sess) (refs : List String) : Bool :=
+  let v := viewOf s
+  refs.all fun r => v.db.any (·.1 == r) || v.poisoned.contains r
 
 /-! ### Settings -/
 
@@ -165,7 +185,7 @@ def listing (s : Sess) : Outcome :=
     (s.schemas.flatMap fun sc => sc.objs.filterMap fun (n, o) => match o with
       | .table _ _ => some (sc.name, n) | _ => none)
     (s.schemas.flatMap fun sc => sc.objs.filterMap fun (n, o) => match o with
-      | .view _ _ => some (sc.name, n) | _ => none)
+      | .view _ _ _ => some (sc.name, n) | _ => none)
 
 /-- Specification step. `threads` only fixes the default of `partitions`. -/
 def step (threads : Int) (s : Sess) : Stmt → Sess × Outcome
@@ -183,16 +203,14 @@ def step (threads : Int) (s : Sess) : Stmt → Sess × Outcome
     | some sc => match sc.find n with
       | some _ => if ine then (s, .ok) else (s, .err false)
       | none => (addObj s sn n (.table w []), .ok)
-  | .createView sn n w q =>
+  | .createView sn n w q refs =>
     match findSchema s sn with
     | none => (s, .err false)
     | some sc => match sc.find n with
       | some _ => (s, .err false)
       | none =>
         -- the body is bound (not executed) at creation: it must refer to existing objects
-        match evalQ (dbOf s) 200 [] q with
-        | .error e => if isRuntime e then (addObj s sn n (.view w q), .ok) else (s, .err false)
-        | .ok _ => (addObj s sn n (.view w q), .ok)
+        if binds s refs then (addObj s sn n (.view w q refs), .ok) else (s, .err false)
   | .dropObj sn n ie =>
     -- dialect: a missing *schema* is an error even with IF EXISTS
     match findSchema s sn with
@@ -201,18 +219,18 @@ def step (threads : Int) (s : Sess) : Stmt → Sess × Outcome
       match lookup s sn n with
       | none => if ie then (s, .ok) else (s, .err false)
       | some _ => (removeObj s sn n, .ok)
-  | .insert sn n q =>
+  | .insert sn n q refs =>
     match lookup s sn n with
     | some (.table _ rows) =>
-      match evalQ (dbOf s) 200 [] q with
+      match evalOn s q refs with
       | .ok new => (setRows s sn n (rows ++ new), .count new.length)
       | .error e => (s, .err (isRuntime e))
     | _ => (s, .err false)
-  | .ctas sn n ine w q =>
+  | .ctas sn n ine w q refs =>
     match findSchema s sn with
     | none => (s, .err false)
     | some sc =>
-      match evalQ (dbOf s) 200 [] q with
+      match evalOn s q refs with
       | .error e => (s, .err (isRuntime e))
       | .ok new =>
         match sc.find n with
@@ -230,8 +248,8 @@ def step (threads : Int) (s : Sess) : Stmt → Sess × Outcome
     match getVar threads s v with
     | some (b, x) => (s, .val b x)
     | none => (s, .err false)
-  | .select q =>
-    match evalQ (dbOf s) 200 [] q with
+  | .select q refs =>
+    match evalOn s q refs with
     | .ok rows => (s, .rows rows)
     | .error e => (s, .err (isRuntime e))
   | .listObjs => (s, listing s)
@@ -241,11 +259,11 @@ query runs; a run-time failure of the query does not remove it. A duplicate name
 first (at bind time the entry does not exist yet, so the conflict surfaces when the operator
 creates the entry — before rows are evaluated). -/
 def stepImpl (threads : Int) (s : Sess) : Stmt → Sess × Outcome
-  | .ctas sn n ine w q =>
+  | .ctas sn n ine w q refs =>
     match findSchema s sn with
     | none => (s, .err false)
     | some sc =>
-      match evalQ (dbOf s) 200 [] q with
+      match evalOn s q refs with
       | .error e =>
         if isRuntime e then
           match sc.find n with
